@@ -398,6 +398,9 @@ DYN = {
                             HEAD + "from c06pkg.sub import mod\nmod.fn.a = 1\nmod.fn.b = 'b'\n"),
     'alias_is_other_module_name': ('B', HEAD + "from c06pkg import sub as other\ninclude 'c06_b.gin'\nother.mod.fn.a = 1\n",
                                    HEAD + "from c06pkg import other\nother.fn.a = 2\n"),
+    # plain-style imports whose alias equals the module's last component (NOT redundant: `import a.b` binds `a`)
+    'alias_equals_tail': HEAD + "import c06pkg.other as other\nother.fn.a = 1\nimport c06pkg.sub.mod as mod\nmod.fn.b = [2]\n",
+    'from_alias_equals_name': HEAD + "from c06pkg import other as other\nother.fn.a = 1\n",
     'static_mix': "import json\nc06.f.x = 1\n",
     'capitalised_package': HEAD + "import Zc06Upper.Mod\nimport c06pkg.other\nZc06Upper.Mod.fn.a = 1\nc06pkg.other.fn.a = 2\n",
     'capitalised_from': HEAD + "from Zc06Upper import Mod as M\nM.fn.b = [1, 2]\n",
